@@ -61,6 +61,7 @@ FILES = {
               "    arg2 = abs(real(arg1))\n    call sa(arg1, arg2)\n  end subroutine sa\nend module ma\n"),
     "pp.F90": ("program pp\n#ifdef XDEF\n  integer :: only_x\n#endif\n#ifdef YDEF\n  integer :: only_y\n#endif\n"
                "#include \"h1.h\"\n#ifdef FROM_INC1\n  integer :: from_inc1\n#endif\n#ifdef FROM_INC2\n  integer :: from_inc2\n#endif\nend program pp\n"),
+    "k.f90": "module mk\n  implicit none\n  real, save, target, dimension(3), public :: unsorted_attrs\nend module mk\n",
     "low.f90x": "",
     "q.fh": "module mfh\n#ifdef XDEF\n  integer :: fh_x\n#endif\nend module mfh\n",
     "b_x.f90": "module mbx\nend module mbx\n", "b_y.f90": "module mby\nend module mby\n",
@@ -162,6 +163,25 @@ def observe(root, argv, fake_pool=True):
         beh["signature"] = s.result("textDocument/signatureHelp", Server.tdpp(a, 12, 12))
         beh["symbols"] = sorted(x["name"] for x in s.result("textDocument/documentSymbol", {"textDocument": {"uri": Server.tdpp(a, 0, 0)["textDocument"]["uri"]}}))
         beh["code_actions"] = s.result("textDocument/codeAction", {**Server.tdpp(a, 0, 0), "range": {"start": {"line": 2, "character": 0}, "end": {"line": 4, "character": 0}}, "context": {"diagnostics": []}})
+    # the same questions after the document was re-parsed in the server process (options that are applied while parsing)
+    k = os.path.join(root, "k.f90")
+    if k in srv.workspace:
+        beh["hover_unsorted"] = s.result("textDocument/hover", Server.tdpp(k, 2, 46))
+        s.open(k)
+        s.change(k, [{"text": FILES["k.f90"] + "! edited\n"}])
+        beh["hover_unsorted_after_change"] = s.result("textDocument/hover", Server.tdpp(k, 2, 46))
+    if a in srv.workspace:
+        out = s.change(a, [{"text": FILES["a.f90"] + "! edited\n"}])
+        out += s.save(a)
+        beh["diagnostics_after_change"] = [[(d["range"]["start"]["line"], d["message"]) for d in o["params"]["diagnostics"]]
+                                           for o in out if o.get("method") == "textDocument/publishDiagnostics"]
+        beh["hover_arg_after_change"] = s.result("textDocument/hover", Server.tdpp(a, 11, 6))
+    p = os.path.join(root, "pp.F90")
+    if p in srv.workspace:
+        s.open(p)
+        s.change(p, [{"text": FILES["pp.F90"] + "! edited\n"}])
+        sy = s.result("textDocument/documentSymbol", {"textDocument": {"uri": Server.tdpp(p, 0, 0)["textDocument"]["uri"]}})
+        beh["pp_symbols_after_change"] = sorted(x["name"] for x in sy) if isinstance(sy, list) else sy
     ws = s.result("workspace/symbol", {"query": "only_"})
     beh["pp_symbols"] = sorted(x["name"] for x in ws) if isinstance(ws, list) else ws
     ws = s.result("workspace/symbol", {"query": "f"})
